@@ -1,36 +1,36 @@
 SPECIFICATION Spec
 CONSTANTS
   Mode = "mc"
-  MaxNodes = 8
-  Enabled = {"Module", "Fn", "Head", "Const", "Struct", "Opaque", "Word", "Import", "Param", "Member", "TyPrim", "Int", "Loop"}
-  FlagSets <- FlagSets_all
+  MaxNodes = 9
+  Enabled = {"Module", "Head", "Param", "TyPrim", "TyNamed", "TyPtr", "TyView", "TyArray", "TyArrayC", "TySlice", "TyEndless", "TyArraylike"}
+  FlagSets <- FlagSets_none
   VarForms <- VarForms_init
-  FnNames = {"f", "g"}
-  ParamNames = {"p", "q"}
+  FnNames = {"f"}
+  ParamNames = {"p"}
   VarNames = {"x"}
   LabelNames = {"l"}
   GotoNames = {"l"}
-  MemberNames = {"m", "n"}
+  MemberNames = {"m"}
   TypeNames = {"S"}
   ConstNames = {"N"}
   Builtins = {"print"}
-  PrimTypes = {"u8"}
-  WordSizes = {1, 16}
-  Files <- Files_all
+  PrimTypes = {"u8", "bool"}
+  WordSizes = {8}
+  Files <- Files_one
   IntLits <- IntLits_one
   CharLits <- CharLits_one
   StrLits <- StrLits_one
-  ArrayLens <- ArrayLens_one
+  ArrayLens <- ArrayLens_all
   AddOps = {"+"}
   MulOps = {"*"}
   BitOps = {"&"}
   ShiftOps = {"<<"}
   UnOps = {"-"}
   CmpOps = {"=="}
-  MaxDecls = 3
-  MaxParams = 3
-  MaxMembers = 3
-  MaxStmts = 2
+  MaxDecls = 1
+  MaxParams = 1
+  MaxMembers = 0
+  MaxStmts = 0
   MaxBlock = 0
   MaxArgs = 0
   MaxElems = 0
